@@ -161,6 +161,24 @@ def run_impl_side(prop: Prop, cases: list):
     return [_pool_run(c) for c in cases]
 
 
+def retry_timeouts(prop: Prop, cases: list, impl_side: list):
+    """A per-case time-out under load is not evidence of anything: re-run such cases alone, one at a time, with a ten
+    times longer limit. Only a case that still does not finish is kept as a (reproducible) hang."""
+    idx = [i for i, (io, orc, _, _) in enumerate(impl_side)
+           if (isinstance(io, dict) and io.get("raised") == "CaseTimeout") or any("time limit" in str(v.get("what", "")) for v in orc)]
+    if not idx:
+        return impl_side, 0
+    old = getattr(prop, "CASE_TIMEOUT", 30)
+    prop.CASE_TIMEOUT = max(120.0, 10.0 * float(old))
+    out = list(impl_side)
+    try:
+        for i in idx[:20]:
+            out[i] = _pool_run(cases[i])
+    finally:
+        prop.CASE_TIMEOUT = old
+    return out, len(idx)
+
+
 def run_model_side(prop: Prop, cases: list, impl_side=None):
     """Model side. For translation-validation style checks (prop.USES_IMPL) the requests are built from
     the converted real IR contained in the implementation's output."""
@@ -317,6 +335,7 @@ def run_check(prop: Prop, tier: str, seed: int, replay: str | None = None) -> in
     cases = corpus + gen
     try:
         impl_side = run_impl_side(prop, cases)
+        impl_side, n_retried = retry_timeouts(prop, cases, impl_side)
         model_side = run_model_side(prop, cases, impl_side) if ok else [None] * len(cases)
     except leandrv.InfraError as e:
         say(f"INFRA: {e}")
@@ -411,7 +430,8 @@ def run_check(prop: Prop, tier: str, seed: int, replay: str | None = None) -> in
             if not batch:
                 break
             for c, (io, orc, _, _) in zip(batch, run_impl_side(prop, batch)):
-                bad = [v for v in orc if v.get("finding") not in open_ids]
+                bad = [v for v in orc if v.get("finding") not in open_ids and "time limit" not in str(v.get("what", ""))
+                       and "CaseTimeout" not in str(v.get("what", ""))]
                 if bad:
                     found = (c, io, bad)
                     break
@@ -465,7 +485,7 @@ def run_check(prop: Prop, tier: str, seed: int, replay: str | None = None) -> in
             "correspondence_disagreements": len(disagreements),
             "impl_oracle_violations_unlisted": len(impl_violations),
             "known_finding_hits_in_stream": known_hits,
-            "corpus_cases": len(corpus), "input_distribution": dict(sorted(dist.items())),
+            "corpus_cases": len(corpus), "cases_retried_after_timeout": n_retried, "input_distribution": dict(sorted(dist.items())),
             "build_seconds": round(bsec, 1), "exhaustive": bool(getattr(prop, "exhaustive_" + tier, False)),
             "obligation_notes": obligations.get("notes", ""),
         },
